@@ -307,6 +307,13 @@ def runPipeline (r : Readout) (prior : Det) (w : Nat → Det → Det) : Except E
   | .error e => .error e
   | .ok () => .ok (runLoop r.start r.times r.nd prior w)
 
+/-- Observation (sequential and dask path) and Calibration call the same engine `run_pipeline` once
+per parameter set / fitness evaluation, each time on a detector (a deep copy, or a processor re-used
+from the previous evaluation) that holds whatever the history left: `priors` -/
+def runMany (r : Readout) (priors : List Det) (w : Nat → Det → Det) :
+    List (Except Err (List (Obs X))) :=
+  priors.map (fun p => runPipeline r p w)
+
 /-- construction, caller's setter operations, run -/
 def session (src : Src) (start : X) (nd : Bool) (ops : List Op) (prior : Det)
     (w : Nat → Det → Det) : Except Err (List (Obs X)) :=
